@@ -47,6 +47,9 @@ CHECKS = {
  "C14": ("reference-model monitor: generic-width conversions vs the generic oracle, all 31x31 width pairs",
          "float, integer, fixed-width-posit, Q32E2 and generic-to-generic conversions (all 961 width pairs x 3 directions, every spelling) compared with the exact / correctly rounded oracle value for the target (n,es); exhaustive when the source has <= 16 bits, hostile samples otherwise.",
          "§6 C14"),
+ "C16": ("totality + differential monitor: op catalogue in overflow-checked and optimised builds, heartbeat watchdog, Miri",
+         "every registered public operation that is not an explicit todo!() stub (about 6700 entries: fixed types, all 62 generic instantiations, all 961 x 3 width pairs, quires, polynomials, linalg / simba / approx impls, every spelling) is run on one deterministic input list (cross product of type extremes + hostile tuples) in a release build (overflow-checks off), a 'checked' build (overflow-checks + debug-assertions on) and, in thorough, a dev build; any panic (arithmetic / shift overflow, index, assert), any call that does not return within 20 s (confirmed in a fresh process) and any difference of result bits between builds is a violation. Miri interprets a reduced catalogue (quick: the ops that reach the crate's unsafe code; thorough: every op, 33 processes).",
+         "§6 C16"),
  "C17": ("differential monitor: every spelling vs the inherent operation, both real code",
          "operator traits, op-assign forms, From/Into, num_traits (Zero One Num Signed Float FloatConst Bounded FromPrimitive ToPrimitive NumCast), Quire/AssociatedQuire trait methods and the type aliases are executed side by side with the inherent operation on the same inputs; equality of bits is the oracle, a panic on one side only is a disagreement. Exhaustive for 8/16-bit arguments, hostile samples otherwise.",
          "§6 C17"),
@@ -63,7 +66,6 @@ CHECKS = {
 NOT_YET = {
  "C11": "monitor not built yet in this round (planned: exhaustive comparison with committed mpmath tables, DESIGN §6 C11)",
  "C15": "monitor not built yet in this round (planned: libm filter + mpmath arbiter, DESIGN §6 C15)",
- "C16": "monitor not built yet in this round (planned: op catalogue in three build profiles + Miri, DESIGN §6 C16)",
 }
 NOTE = ("trusted: rustc/LLVM + CPU for the harness' integer code; the exact-arithmetic oracle (harness/src/big.rs, val.rs, fast.rs; "
         "two independent encoders and a u128 fast path cross-checked on every run, every candidate violation re-judged by the slow BigUint path); "
@@ -107,6 +109,6 @@ def main():
     }
     json.dump(m, open(os.path.join(HERE, "MANIFEST.json"), "w"), indent=1)
 
-EXTRA_NOTE = {}
+EXTRA_NOTE = {"C16": "; termination is decided as returns within 20 s (bounded progress); todo!() panics count as stubs only when they come from a (file, function) pair listed in tools/stubs.json; build-profile independence is checked for the profiles named, on this compiler and CPU"}
 if __name__ == "__main__":
     main()
